@@ -54,6 +54,10 @@ type uChan struct {
 	kind     int
 	capacity int64
 	outpoint wire.OutPoint // only meaningful when an output exists
+	// own-channels arm: the node under test is endpoint n[selfIdx]
+	own      bool
+	selfIdx  int
+	announce bool // the funding manager will ask for the channel to be announced
 }
 
 // Universe is everything the simulated network knows.
@@ -98,9 +102,9 @@ func signTail(w []byte, key *btcec.PrivateKey) {
 type caSpec struct {
 	c         *uChan
 	scid      lnwire.ShortChannelID
-	nodeKeys  [2]*uNode              // stated node ids
-	btcKeys   [2]*btcec.PrivateKey   // stated bitcoin keys
-	signers   [4]*btcec.PrivateKey   // who actually signs node1,node2,btc1,btc2
+	nodeKeys  [2]*uNode            // stated node ids
+	btcKeys   [2]*btcec.PrivateKey // stated bitcoin keys
+	signers   [4]*btcec.PrivateKey // who actually signs node1,node2,btc1,btc2
 	chainHash chainhash.Hash
 	features  *lnwire.RawFeatureVector
 	extra     []byte
@@ -115,7 +119,9 @@ func (u *Universe) baseCA(c *uChan) caSpec {
 	}
 }
 
-func (s caSpec) wire() []byte {
+// msg is the announcement without signatures (what the funding manager hands
+// to the gossiper for a channel of the node itself).
+func (s caSpec) msg() *lnwire.ChannelAnnouncement1 {
 	m := &lnwire.ChannelAnnouncement1{
 		Features:        s.features,
 		ChainHash:       s.chainHash,
@@ -126,7 +132,11 @@ func (s caSpec) wire() []byte {
 	}
 	copy(m.BitcoinKey1[:], s.btcKeys[0].PubKey().SerializeCompressed())
 	copy(m.BitcoinKey2[:], s.btcKeys[1].PubKey().SerializeCompressed())
-	w := encode(m)
+	return m
+}
+
+func (s caSpec) wire() []byte {
+	w := encode(s.msg())
 	signCA(w, s.signers)
 	return w
 }
